@@ -438,9 +438,9 @@ func (g *Gen) wfFact(v Val, st *State) string {
 		return f
 	case KStr:
 		if g.bv {
-			return fmt.Sprintf("(and (bvsle %s (str.len %s)) (bvslt (str.len %s) #x0000100000000000))", g.idxLit(0), v.T, v.T)
+			return fmt.Sprintf("(and (bvsle %s (gstr.len %s)) (bvslt (gstr.len %s) #x0000100000000000))", g.idxLit(0), v.T, v.T)
 		}
-		return fmt.Sprintf("(and (<= 0 (str.len %s)) (<= (str.len %s) 4611686018427387904))", v.T, v.T)
+		return fmt.Sprintf("(and (<= 0 (gstr.len %s)) (<= (gstr.len %s) 4611686018427387904))", v.T, v.T)
 	case KPtr:
 		if st != nil {
 			return fmt.Sprintf("(and (=> (is-pobj %[1]s) (and (< 0 (pobj.id %[1]s)) (<= (pobj.id %[1]s) %[2]s))) (=> (is-pelem %[1]s) (and (< 0 (pelem.arr %[1]s)) (<= (pelem.arr %[1]s) %[2]s))))", v.T, st.alloc)
@@ -476,11 +476,11 @@ func (g *Gen) strLit(s string) string {
 	n := fmt.Sprintf("strlit!%d", len(g.strLits))
 	g.strLits[s] = n
 	g.declare(n, "Str")
-	g.assumes = append(g.assumes, fmt.Sprintf("(= (str.len %s) %s)", n, g.idxLit(int64(len(s)))))
-	g.assumes = append(g.assumes, fmt.Sprintf("(= (str.id %s) %d)", n, len(g.strLits)))
+	g.assumes = append(g.assumes, fmt.Sprintf("(= (gstr.len %s) %s)", n, g.idxLit(int64(len(s)))))
+	g.assumes = append(g.assumes, fmt.Sprintf("(= (gstr.id %s) %d)", n, len(g.strLits)))
 	if len(s) <= 16 {
 		for i := 0; i < len(s); i++ {
-			g.assumes = append(g.assumes, fmt.Sprintf("(= (str.at %s %s) %s)", n, g.idxLit(int64(i)), g.byteLit(int64(s[i]))))
+			g.assumes = append(g.assumes, fmt.Sprintf("(= (gstr.at %s %s) %s)", n, g.idxLit(int64(i)), g.byteLit(int64(s[i]))))
 		}
 	}
 	return n
